@@ -936,10 +936,19 @@ def run_c05(ctx, rng, job):
         return (ep, ri, req, prov, rng.choice(['', 'a']), obs)
 
     followup = []
+    steer = []        # (registry index, number of further changes wanted) after a rebuild()
 
     def mutate():
-        k = rng.choice(MUTATION_KINDS + ['register', 'subscribe'])
+        k = rng.choice(MUTATION_KINDS + ['register', 'subscribe', 'rebuild'])
         ri = rng.randrange(len(w.regs))
+        if steer:
+            # after a rebuild(): as many further changes in that registry as it takes to bring its change counter
+            # back to where it was (a registry that counts changes from scratch after rebuild() would look unchanged
+            # to a verifying registry below it)
+            ri, n = steer.pop()
+            k = rng.choice(['register', 'subscribe'])
+            if n > 1:
+                steer.append((ri, n - 1))
         if followup and rng.random() < 0.6:
             # right after a registry was re-based (and the keys were asked again): a change in one of its *new*
             # ancestors - the descendants have to notice changes along the new chain, not the old one
@@ -968,6 +977,17 @@ def run_c05(ctx, rng, job):
                 return None
             x = rng.choice(subd)
             e = (x[0], 'unsubscribe', x[2][:2] + ((x[2][2],) if rng.random() < .5 else ()))
+        elif k == 'rebuild':
+            g0 = getattr(w.regs[ri], '_generation', None)
+            e = (ri, 'rebuild', ())
+            ctx.op('rebuild', ri)
+            log.append(e)
+            apply(w.regs, e)
+            g1 = getattr(w.regs[ri], '_generation', None)
+            ctx.count('rebuilds_between_lookups')
+            if isinstance(g0, int) and isinstance(g1, int) and 0 < g0 - g1 <= 4 and rng.random() < 0.7:
+                steer.append((ri, g0 - g1))
+            return k
         elif k == 'registry_bases':
             i = rng.randrange(len(w.regs))
             idx = rng.sample(range(i), min(i, rng.choice([0, 1, 1, 2])))
@@ -1028,6 +1048,15 @@ def run_c05(ctx, rng, job):
         if k is None:
             continue
         kinds.append(k)
+        # bursts: several mutations before anything is looked up again (and always the whole steered sequence)
+        extra = rng.choice([0, 0, 0, 1, 2, 3])
+        while extra > 0 or steer:
+            extra -= 1
+            k2 = mutate()
+            if k2 is not None:
+                kinds.append(k2)
+                ctx.count('mutations_in_a_burst')
+                k = k2
         qs = seen[-14:] + [(newq(), None) for _ in range(4)]
         cr = cold()
         nxt = []
